@@ -67,6 +67,13 @@ func HasRootDomain(url string, root string) bool {
 		return false
 	}
 
+	// Only in web addresses the host is where the content comes from. An URL
+	// like javascript://www.youtube.com/%0Aalert(1) has something that looks
+	// like a host as well, but nothing is loaded from there.
+	if parsedURL.Scheme != "http" && parsedURL.Scheme != "https" {
+		return false
+	}
+
 	return parsedURL.Host == root || strings.HasSuffix(parsedURL.Host, "."+root)
 }
 
